@@ -497,6 +497,12 @@ Theorem C14_lookup_pm_agree :
 Proof. exact MatchAgreeProofs.lookup_pm_agree. Qed.
 Print Assumptions C14_lookup_pm_agree.
 
+(* the two models of utils.PathSplitter (Yaml/FieldSpec.v for "/", Yaml/Match.v for any one-byte delimiter) agree *)
+Theorem C14_path_splitter_agree :
+  forall path : string, path_splitter path = Match.path_splitter_c "/"%char path.
+Proof. exact MatchAgreeProofs.path_splitter_agree. Qed.
+Print Assumptions C14_path_splitter_agree.
+
 (* ---------- readers on the raw Content ---------- *)
 (* on a well-formed mapping the raw reader is find_field and never panics *)
 Theorem C14_raw_reader_wellformed :
@@ -504,25 +510,23 @@ Theorem C14_raw_reader_wellformed :
 Proof. exact raw_find_flatten. Qed.
 Print Assumptions C14_raw_reader_wellformed.
 
-(* "no reader panics" is refuted: GetKind on a sequence with an odd number of elements
-   (finding C14/panic-visitFieldsWhileTrue-index-oob = C12 panic:kyaml/yaml.visitFieldsWhileTrue:index-oob) *)
-Theorem C14_raw_reader_panic_refuted : exists n, rn_get_kind n = Panic.
-Proof. exact get_kind_seq_panics. Qed.
-Print Assumptions C14_raw_reader_panic_refuted.
+(* No reader of mapping fields panics, whatever the Content: a trailing entry without a partner is ignored
+   (repo fix 1d1d852; until then: finding C14/panic-visitFieldsWhileTrue-index-oob, theorems
+   C14_raw_reader_panic_refuted / _panic_exact / _no_panic_partial). *)
+Theorem C14_raw_reader_no_panic :
+  forall (name : string) (c : list node) (k : rawkind) (n : node),
+    raw_find name c <> Panic /\ raw_fields k c <> Panic /\ map_field_text name n <> Panic.
+Proof. exact (fun name c k n => conj (raw_find_no_panic name c) (conj (raw_fields_never_panics k c) (map_field_text_no_panic name n))). Qed.
+Print Assumptions C14_raw_reader_no_panic.
 
-(* what does hold: an even Content never panics; and an odd one panics exactly when the name is not found *)
-Theorem C14_raw_reader_no_panic_partial :
-  forall (name : string) (c : list node), Nat.even (List.length c) = true -> raw_find name c <> Panic.
-Proof. exact raw_find_even_no_panic. Qed.
-Print Assumptions C14_raw_reader_no_panic_partial.
+(* the reader sees exactly the complete pairs of an odd Content *)
+Theorem C14_raw_reader_unpaired_entry :
+  forall (name : string) (kvs : list (string * node)) (x : node),
+    raw_find name (flatten kvs ++ [x]) = Ok (find_field name kvs).
+Proof. exact raw_find_unpaired. Qed.
+Print Assumptions C14_raw_reader_unpaired_entry.
 
-Theorem C14_raw_reader_panic_exact :
-  forall (name : string) (c : list node),
-    Nat.odd (List.length c) = true -> key_absent name c = true -> raw_find name c = Panic.
-Proof. exact raw_find_panics. Qed.
-Print Assumptions C14_raw_reader_panic_exact.
-
-(* fieldspec.Filter on a non-sequence object is fs_apply; on a sequence object the GVK test can panic *)
+(* fieldspec.Filter on a non-sequence object is fs_apply (a sequence object is read pairwise by the GVK test) *)
 Theorem C14_fs_apply_raw_agrees :
   forall ck ct sv fs obj, is_seq obj = false -> fs_apply_raw ck ct sv fs obj = fs_apply ck ct sv fs obj.
 Proof. exact fs_apply_raw_agrees. Qed.
